@@ -27,9 +27,20 @@ func newPrefixKV(kvStore ds.Batching, prefix string) ds.Batching {
 // BatchQueue implements a persistent queue for transaction batches
 type BatchQueue struct {
 	queue        []coresequencer.Batch
-	maxQueueSize int // maximum number of batches allowed in queue (0 = unlimited)
+	keys         []string // datastore key of each queued batch (parallel to queue)
+	nextSeq      uint64   // sequence number of the next accepted batch
+	maxQueueSize int      // maximum number of batches allowed in queue (0 = unlimited)
 	mu           sync.Mutex
 	db           ds.Batching
+}
+
+// batchKey is the datastore key of the batch accepted as number seq: unique per accepted batch (equal
+// batches no longer share a record) and increasing in acceptance order (Load restores that order).
+// Records written before this scheme have the bare hex hash as key: they sort before every "s..." key
+// ('s' > 'f'), so Load puts them first (in hash order among themselves, their acceptance order was never
+// recorded) and Next deletes them under their own key.
+func batchKey(seq uint64, hash []byte) string {
+	return fmt.Sprintf("s%016x-%s", seq, hex.EncodeToString(hash))
 }
 
 // NewBatchQueue creates a new BatchQueue with the specified maximum size.
@@ -57,7 +68,7 @@ func (bq *BatchQueue) AddBatch(ctx context.Context, batch coresequencer.Batch) e
 	if err != nil {
 		return err
 	}
-	key := hex.EncodeToString(hash)
+	key := batchKey(bq.nextSeq, hash)
 
 	pbBatch := &pb.Batch{
 		Txs: batch.Transactions,
@@ -75,6 +86,8 @@ func (bq *BatchQueue) AddBatch(ctx context.Context, batch coresequencer.Batch) e
 
 	// Then add to in-memory queue
 	bq.queue = append(bq.queue, batch)
+	bq.keys = append(bq.keys, key)
+	bq.nextSeq++
 
 	return nil
 }
@@ -90,15 +103,11 @@ func (bq *BatchQueue) Next(ctx context.Context) (*coresequencer.Batch, error) {
 
 	batch := bq.queue[0]
 	bq.queue = bq.queue[1:]
-
-	hash, err := batch.Hash()
-	if err != nil {
-		return &coresequencer.Batch{Transactions: nil}, err
-	}
-	key := hex.EncodeToString(hash)
+	key := bq.keys[0]
+	bq.keys = bq.keys[1:]
 
 	// Delete the batch from the WAL since it's been processed
-	err = bq.db.Delete(ctx, ds.NewKey(key))
+	err := bq.db.Delete(ctx, ds.NewKey(key))
 	if err != nil {
 		// Log the error but continue
 		fmt.Printf("Error deleting processed batch: %v\n", err)
@@ -114,8 +123,10 @@ func (bq *BatchQueue) Load(ctx context.Context) error {
 
 	// Clear the current queue
 	bq.queue = make([]coresequencer.Batch, 0)
+	bq.keys = nil
 
-	q := query.Query{}
+	// key order = acceptance order (see batchKey)
+	q := query.Query{Orders: []query.Order{query.OrderByKey{}}}
 	results, err := bq.db.Query(ctx, q)
 	if err != nil {
 		return fmt.Errorf("error querying datastore: %w", err)
@@ -135,6 +146,12 @@ func (bq *BatchQueue) Load(ctx context.Context) error {
 			continue
 		}
 		bq.queue = append(bq.queue, coresequencer.Batch{Transactions: pbBatch.Txs})
+		bq.keys = append(bq.keys, result.Key)
+		// continue numbering above every reloaded record
+		var seq uint64
+		if _, err := fmt.Sscanf(result.Key, "/s%016x-", &seq); err == nil && seq >= bq.nextSeq {
+			bq.nextSeq = seq + 1
+		}
 	}
 
 	return nil
